@@ -229,10 +229,21 @@ func Run(col *core.Collector, prop, tier, variant string, seed uint64, shard, ns
 			col.Count("hook."+sites[s], n)
 		}
 	}
+	if classes := lateClasses[prop]; classes != nil && col.NumViolations() == 0 {
+		runtime.GOMAXPROCS(runtime.NumCPU())
+		RunLate(col, prop, classes, tier, variant, shard, nshards, replayDir)
+	}
 	if prop == "C14" && col.NumViolations() == 0 {
 		runtime.GOMAXPROCS(runtime.NumCPU())
 		runC14PairsAll(col, tier, variant, seed, shard, replayDir, wd)
 	}
+}
+
+// lateClasses: the violation classes of the late-extension scenarios (late.go) that refute a property.
+var lateClasses = map[string][]string{
+	"C02": {"result"},
+	"C05": {"views", "audit"},
+	"C06": {"events"},
 }
 
 type atomicCfg struct {
